@@ -794,7 +794,8 @@ impl Engine {
     /// different configured protocol prefix the authentic staker / collector deliveries come from the account derived
     /// under the *configured* prefix (the account C09 says is accepted).
     fn hook_prefix(&self, who: &HookWho) -> String {
-        if self.prefix_foreign() && matches!(who, HookWho::Staker | HookWho::Collector) {
+        // (on even steps; on odd steps the chain-prefix account calls, which then is an impostor and must be refused)
+        if self.prefix_foreign() && matches!(who, HookWho::Staker | HookWho::Collector) && self.step % 2 == 0 {
             self.m.cfg.pprefix.clone()
         } else {
             self.a.pprefix.clone()
